@@ -330,6 +330,11 @@ def gen_case(seed, tier, index=0):
     else:
         case_git = None
     case["world"] = {"files": files}
+    if rng.chance(0.15):
+        # symbolic links that cannot be resolved: a self-loop, a two-link cycle, a link into the cycle, a dangling one
+        case["world"]["symlinks"] = rng.sample([{"path": "src/self", "target": "self"}, {"path": "src/ping", "target": "pong"},
+                                                {"path": "src/pong", "target": "ping"}, {"path": "docs/into", "target": "../src/ping"},
+                                                {"path": "docs/gone", "target": "nowhere"}, {"path": "loopdir", "target": "."}], rng.randint(2, 5))
     if fam == "broken" and rng.chance(0.3):
         # the project directory's own name ends up in the message that names the broken file
         case["world"]["root_name"] = rng.pick(["proj{2024}", "{}", "{0}", "100%s", "a b", "p[1]", "%(x)s", "{name"])
